@@ -147,6 +147,7 @@ func (l *QueueBlockingListener) unblock() {
 		// If the listener is not accepted due to subtle timings
 		// between setListener being invoked and the element
 		// expiration elapsing we need to be sure to release it.
+		verifPoint("queue.before_handoff")
 		if accepted := nextEvent.setListener(listener); !accepted {
 			listener.OnIgnore()
 		}
@@ -283,7 +284,9 @@ func (l *QueueBlockingLimiter) tryAcquire(ctx context.Context) core.Listener {
 	// Create a holder for a listener and block until a listener is released by another
 	// operation.  Holders will be unblocked in LIFO or FIFO order depending on whatever
 	// ordering was configured when backlog was instantiated
+	verifPoint("queue.before_push")
 	evict, eventReleaseChan := l.backlog.push(ctx)
+	verifPoint("queue.after_push")
 
 	// We're using a nil chan so that we
 	// can avoid needing to duplicate the
